@@ -27,6 +27,8 @@ type Block struct {
 	Txs    [][]byte
 	// Desc describes each tx for replay files (message types and signer), not used by execution.
 	Desc []string
+	// BasicInvalid marks txs whose messages fail ValidateBasic (rejected by baseapp before the ante handler).
+	BasicInvalid []bool
 }
 
 // BlockResult is everything a replica reports about one block.
@@ -39,6 +41,9 @@ type BlockResult struct {
 	Panic    string // "" or "<phase>: <message>"
 	Digests  Digests
 }
+
+// EventsDigest hashes the events of one tx result.
+func EventsDigest(evs []abci.Event) string { return hashStrings([]string{eventsString(evs)})[:12] }
 
 // Digests are the per-height observations compared across replicas.
 type Digests struct {
